@@ -10,6 +10,7 @@ import ast
 from .. import astq
 from ..cfg import CFG, walk_no_defs
 from ..dataflow import ReachingDefs, containing_node
+from ..report import MISSING
 from ..model import AnalysisError, ClassInfo, FunctionInfo, unparse
 
 LEVEL = "proof"
@@ -222,7 +223,7 @@ def search(ctx):
                   "from_alias instantiates %s without testing `%s in %s.aliases` on that path" % (cand, aliasname, cand))
     raises = astq.raises_of(f)
     ctx.check(len(raises) >= 1 and all(astq.raise_type(prog, f, r) == "ValueError" for r in raises), R, f,
-              raises[0] if raises else f.node, "an unknown alias raises ValueError",
+              raises[0] if raises else MISSING(f.node), "an unknown alias raises ValueError",
               "from_alias does not raise ValueError for an unknown alias (raises: %s)"
               % [astq.raise_type(prog, f, r) for r in raises])
     # the raise must be the fall-through after the loop (reachable when the stack empties)
@@ -236,7 +237,7 @@ def search(ctx):
               "from_alias can finish without returning an instance or raising")
     # no except clause swallows constructor errors
     tries = [n for n in f.body_nodes() if isinstance(n, ast.Try)]
-    ctx.check(not tries, R, f, tries[0] if tries else f.node, "no try/except around instantiation",
+    ctx.check(not tries, R, f, tries[0] if tries else MISSING(f.node), "no try/except around instantiation",
               "from_alias wraps instantiation in try/except and may swallow constructor errors")
     # 3. traversal order: LIFO pop, parent re-pushed before children, children = __subclasses__()
     pops = [c for c in astq.func_calls(f) if astq.attr_call(c, "pop")]
@@ -265,7 +266,7 @@ def search(ctx):
     # the start of the search is the class the method was called on
     starts = [n for n in f.body_nodes() if isinstance(n, ast.Assign) and any(astq.is_name(t, stack_name) for t in n.targets)]
     ok = any(isinstance(s.value, ast.List) and len(s.value.elts) == 1 and astq.is_name(s.value.elts[0], clsname) for s in starts)
-    ctx.check(ok, R, f, starts[0] if starts else f.node, "the search starts at the class it was called on (the family)",
+    ctx.check(ok, R, f, starts[0] if starts else MISSING(f.node), "the search starts at the class it was called on (the family)",
               "the search does not start from [%s]" % clsname)
 
 
@@ -304,7 +305,7 @@ def dispatch(ctx):
     dom = cfg.dominators()
     body = f.node.body
     stmts = [s for s in body if not (isinstance(s, ast.Expr) and isinstance(s.value, ast.Constant))]
-    first = stmts[0] if stmts else None
+    first = stmts[0] if stmts else MISSING(None)
     # (i) isinstance test first, returns arg itself
     ok = (isinstance(first, ast.If) and isinstance(first.test, ast.Call) and astq.is_name(first.test.func, "isinstance")
           and len(first.test.args) == 2 and astq.is_name(first.test.args[0], arg) and astq.is_name(first.test.args[1], fc)
@@ -542,7 +543,7 @@ def shims(ctx):
         ok = (prog.resolve(f.module, v.func, f) is afs and f.vararg and f.kwarg and len(v.args) == 1
               and isinstance(v.args[0], ast.Starred) and astq.is_name(v.args[0].value, f.vararg)
               and len(v.keywords) == 1 and v.keywords[0].arg is None and astq.is_name(v.keywords[0].value, f.kwarg))
-    ctx.check(ok, R, f, rets[0] if rets else f.node, "util shim forwards *args/**kwargs unchanged to the real function",
+    ctx.check(ok, R, f, rets[0] if rets else MISSING(f.node), "util shim forwards *args/**kwargs unchanged to the real function",
               "util.alias_factory_subclass_from_arg no longer forwards its arguments unchanged")
     shim = prog.module("").classes.get("AliasedFactory")
     ctx.need(shim is not None, R, "pydrobert.speech.AliasedFactory (deprecated shim) vanished")
@@ -556,7 +557,7 @@ def shims(ctx):
               and len(v.args) == 2 and astq.is_name(v.args[0], g.params[1]) and isinstance(v.args[1], ast.Starred)
               and astq.is_name(v.args[1].value, g.vararg)
               and len(v.keywords) == 1 and v.keywords[0].arg is None and astq.is_name(v.keywords[0].value, g.kwarg))
-    ctx.check(ok, R, g, rets[0] if rets else g.node, "package-level AliasedFactory shim forwards to the real from_alias",
+    ctx.check(ok, R, g, rets[0] if rets else MISSING(g.node), "package-level AliasedFactory shim forwards to the real from_alias",
               "pydrobert.speech.AliasedFactory.from_alias no longer forwards (alias, *args, **kwargs) unchanged")
     s, node = own_aliases(shim)
     ctx.check("aliases" not in shim.attrs or s == set(), R, shim, node or shim.node, "the shim class registers no aliases")
